@@ -32,15 +32,18 @@ def what_long(ev, prefix):
 
 def long_runs(ck, runs, max_limit, first=0, tag="long"):
     path = os.path.join(ck.work, f"{tag}.ndjson")
+    # the watchdog counts CPU TIME of the driver (a runaway evaluation burns it; a busy machine
+    # does not): a normal batch needs seconds to a few minutes. The wall-clock timeout is a tool error.
+    budget = 1200 + runs
     try:
         ck.harness(["vm-long", "--seed", ck.seed, "--runs", runs, "--first-run", first,
-                    "--max-limit", max_limit, "--out", path], timeout=600)
-    except subprocess.TimeoutExpired:
+                    "--max-limit", max_limit, "--out", path], timeout=6 * budget, cpu_limit=budget)
+    except vlib.CpuLimit:
         # a hang is an observed outcome: attribute it to the last `begin` without a `bound`
         evs = vlib.read_ndjson(path)
         last = evs[-1] if evs else {}
         ck.violation(f"long:hang:family{last.get('family')}",
-                     f"evaluation did not return within the watchdog (600 s): {json.dumps(last)}",
+                     f"evaluation did not return within the watchdog ({budget} s of CPU time): {json.dumps(last)}",
                      {"kind": "long", "regen": {"seed": ck.seed, "run": last.get("run"),
                                                 "max_limit": max_limit}, "event": last})
         return 0
